@@ -295,12 +295,32 @@ def run(ctx):
     for cls, ev in (('ParsingStateDeltaEnterMathMode', 'enter_math_mode'),
                     ('ParsingStateDeltaLeaveMathMode', 'leave_math_mode')):
         f = dm.methods(cls).get('__init__')
-        t = unparse(f) if f is not None else ''
-        ok = ("walker_event_name='%s'" % ev) in t and ev in hm
-        if cls.endswith('EnterMathMode'):
-            ok = ok and 'math_mode_delimiter=math_mode_delimiter' in t
+        ok, why = False, 'no __init__'
+        if f is not None:
+            base_init = dm.methods('ParsingStateDeltaWalkerEvent').get('__init__')
+            bparams = [a.arg for a in base_init.args.args][1:] if base_init is not None else []
+            sup = symex.sink_cases(f, lambda c: call_name(c) == '__init__' and isinstance(c.func, ast.Attribute)
+                                   and isinstance(c.func.value, ast.Call) and call_name(c.func.value) == 'super')
+            why = 'the walker-event constructor is not called'
+            for cs in sup:
+                byname = dict(zip(bparams, cs.sub.args))
+                byname.update((k.arg, k.value) for k in cs.sub.keywords if k.arg)
+                evn = byname.get('walker_event_name')
+                kws = byname.get('walker_event_kwargs')
+                kws = symex.resolve(kws, cs.env) if kws is not None else None
+                kmap = {}
+                if isinstance(kws, ast.Call) and call_name(kws) == 'dict':
+                    kmap = dict((k.arg, unparse(k.value)) for k in kws.keywords)
+                elif isinstance(kws, ast.Dict):
+                    kmap = dict((k.value if isinstance(k, ast.Constant) else unparse(k), unparse(v_))
+                                for k, v_ in zip(kws.keys, kws.values))
+                ok = isinstance(evn, ast.Constant) and evn.value == ev and ev in hm
+                why = 'event name %s' % (short(evn) if evn is not None else 'missing')
+                if ok and cls.endswith('EnterMathMode'):
+                    ok = kmap.get('math_mode_delimiter') == 'math_mode_delimiter'
+                    why = 'event arguments %s' % kmap
         ctx.decide('R10b', ok, dm, f or dm.cls(cls), '%s fires %s' % (cls, ev),
-                   '%s does not fire the handler event %s with its arguments' % (cls, ev),
+                   '%s does not fire the handler event %s with its arguments (%s)' % (cls, ev, why),
                    construct=cls + ' event')
     we = dm.methods('ParsingStateDeltaWalkerEvent').get('get_updated_parsing_state')
     if we is None:
